@@ -1578,6 +1578,10 @@ class Executor:
                 return False
         for k in a.ghost:
             x, y = a.ghost[k], b.ghost[k]
+            if x is y:
+                continue
+            if not isinstance(x, V) and not hasattr(x, "eq"):
+                return False        # structured ghost value (dict / list): only identical objects are considered equal
             if isinstance(x, V) != isinstance(y, V):
                 return False
             if (isinstance(x, V) and not same(x, y)) or (not isinstance(x, V) and not x.eq(y)):
